@@ -82,6 +82,9 @@ type vwOpts struct {
 	// otherwise the path silently ends there (counted), so that the consequences of the
 	// known C01 defect are not reported again under another property.
 	reportKF bool
+	// noPrune (experiments only, VERIF_DEBUG_NOPRUNE=1): keep exploring past a KF-C01-1
+	// transition to see which other oracle its consequences reach.
+	noPrune bool
 }
 
 // vwStats are counters shared by all instances of one exploration (vacuity guards and
@@ -176,6 +179,7 @@ type vw struct {
 
 	installsUsed, crashesUsed, outagesUsed int
 	dead                                   bool // path ended silently at the known C01 defect
+	tainted                                bool // noPrune: a KF-C01-1 transition lies on this path
 	obs                                    vwEventObs
 	snap                                   []vwLog // store snapshot after the last event
 	snapOK                                 bool
@@ -1175,6 +1179,10 @@ func (w *vw) checkInstallAgainstAcks(n *vwNode, a Authority, res Installed, befo
 				w.st.kfSiblingHits.Add(1)
 			}
 			if !w.o.reportKF {
+				if w.o.noPrune {
+					w.tainted = true
+					continue
+				}
 				w.dead = true
 				w.st.kfSilentEnds.Add(1)
 				return nil
@@ -1696,7 +1704,7 @@ func (w *vw) Canon() string {
 	}
 	logs := w.snapshot()
 	var b strings.Builder
-	fmt.Fprintf(&b, "cp%d.%d.%d/L%d/f%v i%d c%d o%d|", w.cp.epoch, w.cp.term, w.cp.fence, w.cp.leader, w.cp.fenced, w.installsUsed, w.crashesUsed, w.outagesUsed)
+	fmt.Fprintf(&b, "cp%d.%d.%d/L%d/f%v i%d c%d o%d t%v|", w.cp.epoch, w.cp.term, w.cp.fence, w.cp.leader, w.cp.fenced, w.installsUsed, w.crashesUsed, w.outagesUsed, w.tainted)
 	for i, n := range w.nodes {
 		fmt.Fprintf(&b, "n%d d%v S%d.%d[", n.id, n.down, logs[i].leo, logs[i].committed)
 		for _, id := range logs[i].ids {
